@@ -38,7 +38,7 @@ def dump_index(ck, dd):
 def explore(ck):
     r = ck.rng; quick = ck.tier == 'quick'
     ck.rule = ('the real binary on chains with 40-120 transactions per block and up to 60 outputs per transaction (the same hash under P2PKH and P2SH side by side), RAYON_NUM_THREADS in {1,2,3,8,16,64}, '
-               'repeated runs sharing ONE data directory (index reopened) and ONE dump folder pre-seeded with stale *.tmp files longer than the new output and with earlier results, under CPU contention; plus a 48-block index with stale siblings at every third height and a range whose unspent/balances result is header-only, a --verify chain with blocks of 192 and 320 transactions, simplestats -vv with a slow and a fast stdout consumer, a run over 0..20 followed by --start 21 into the same dump folder; '
+               'repeated runs sharing ONE data directory (index reopened) and ONE dump folder pre-seeded with stale *.tmp files longer than the new output and with earlier results, under CPU contention; sequences in which the data directory at one path is replaced by another chain after a failed or successful run (shared TMPDIR); plus a 48-block index with stale siblings at every third height and a range whose unspent/balances result is header-only, a --verify chain with blocks of 192 and 320 transactions, simplestats -vv with a slow and a fast stdout consumer, a run over 0..20 followed by --start 21 into the same dump folder; '
                'every run must equal the single model output (csvdump byte for byte, simplestats, opreturn lines, unspent/balances row sets); SHA-256 of blk*.dat / xor.dat and the dumped key/value '
                'set of the index must be the same before and after. Non-trivial: a block with >= 32 transactions or a transaction with >= 32 outputs; distinct by (case, threads, callback, run number).')
     ck.explanation = ('Proved in Coq: writing result i into slot i in any completion order equals the sequential map (collect_any_order), the model functions are pure, and the output protocol does not '
@@ -87,7 +87,9 @@ def explore(ck):
                         if quick and cb in ('balances',) and th not in (1, 8): continue
                         for name, data in stale.items():
                             with open(os.path.join(out, name), 'wb') as f: f.write(data)
+                        if rep == 1: c.prior_coin = core.PRIOR.get(c.coin, 'litecoin')      # second round: an earlier run of the same range under another --coin has left results of the same names (and mostly the same lengths)
                         rr = run.run_impl(ck.tools, c, cb, datadir=dd, outdir=out if cb in run.NEEDS_DIR else None, env={'RAYON_NUM_THREADS': str(th)})
+                        if rep == 1: del c.prior_coin
                         # only the files of this callback are compared
                         stems = run.stems().get(cb, [])
                         touched = [nm for nm, d in rr.files.items() if nm.endswith('-0-99.csv') and d != stale[nm]]
@@ -107,7 +109,35 @@ def explore(ck):
         shutil.rmtree(dd, ignore_errors=True); shutil.rmtree(out, ignore_errors=True)
 
     two_legs(ck, next(c for c in cases if c.id == 'fork13'))
+    path_reuse(ck)
     slow_consumer(ck)
+
+def path_reuse(ck):
+    """sequences of runs over ONE data directory path and ONE temp directory, the content at the path being replaced in between: (1) a data directory A whose index has been written in several
+    LevelDB sessions (high file numbers) - intact, or with a truncated record so that the run fails while loading the index; (2) the directory is removed and an unrelated chain B, written in
+    one session, is put at the same path; (3) the run over B must give what B gives anywhere else (the model's output) - nothing of the earlier run may survive outside the dump folder"""
+    r = ck.rng; root = os.path.join(ck.tools.work, 'reuse13'); P = os.path.join(root, 'node', 'blocks'); tmp = os.path.join(root, 'tmp')
+    for variant in range(3 if ck.tier == 'quick' else 9):
+        coin = gen.ALL_COINS[(variant * 3 + ck.seed) % 8]; shutil.rmtree(root, ignore_errors=True); os.makedirs(tmp)
+        A = Case('reuseA%d' % variant, coin).simple_layout(gen.random_chain(r, coin, 6, max_tx=2))
+        if variant % 3 == 0: k_, v_ = A.records[3]; A.records[3] = (k_, v_[:len(v_) // 2])          # truncated record: the index cannot be loaded
+        A.materialise(P, ck.tools.ldbw)
+        if variant % 3 == 2:
+            with open(os.path.join(P, 'index', 'notes.txt'), 'wb') as f: f.write(b'stray file inside the index directory\n')
+        for sess in range(3):       # further sessions: the same records again, one session each (file numbers grow; the key/value content stays the same)
+            subprocess.run([ck.tools.ldbw, os.path.join(P, 'index')], input='\n'.join(k.hex() + ' ' + v.hex() for k, v in A.records[sess::3]).encode(), capture_output=True, timeout=120)
+        cb = ['csv', 'unspent', 'balances'][variant % 3]
+        ra = run.run_impl(ck.tools, A, cb, datadir=P, env={'TMPDIR': tmp})
+        B = Case('reuseB%d' % variant, coin).simple_layout(gen.random_chain(r, coin, 8, max_tx=2)); B.meta['fixed'] = True
+        mB = run.run_model(ck.tools, [B], ['csv', 'unspent', 'balances'])[B.id]
+        B.materialise(P, ck.tools.ldbw)
+        rb_ = run.run_impl(ck.tools, B, cb, datadir=P, env={'TMPDIR': tmp})
+        ck.evaluated(); ck.count('runs over a path that held another data directory before (first run %s)' % ('failed' if ra.rc != 0 else 'succeeded')); ck.nontrivial(('reuse', variant))
+        diffs = run.CMP[cb](rb_, mB, B)
+        left = sorted(os.listdir(tmp))
+        if left: diffs.append('files left in the temp directory: %s' % left[:5])
+        if diffs: ck.disagreement('%s over a data directory put at a path where another one stood during an earlier %s run' % (cb, 'failed' if ra.rc != 0 else 'successful'), '\n'.join(diffs)[:1500], B, in_domain=True)
+    shutil.rmtree(root, ignore_errors=True)
 
 def two_legs(ck, base):
     """a sequence of runs sharing one dump folder: heights 0..20 first, then --start 21 into the same folder; the second result must be what it is in a fresh folder"""
